@@ -192,3 +192,27 @@ Theorem compose_insensitive l l' :
   Permutation l l' -> rest (obs (loop l)) = rest (obs (loop l')).
 Proof. intros H. rewrite (insensitive l l' H). reflexivity. Qed.
 End Compose.
+
+(** * Ambient inputs *)
+(** A generation whose reads are all stable observes the same values in any two runs of one binary: whatever function
+    of (document, configuration, observed values) the generator is, its output does not depend on the time of the run,
+    the environment, the host or a random source. *)
+Theorem stable_reads_same_observation (reads : list ambient) (e1 e2 : env) :
+  forallb stable reads = true -> same_binary e1 e2 -> observe reads e1 = observe reads e2.
+Proof.
+  intros H S. unfold observe. induction reads as [|a r IH]; [reflexivity|]. simpl in *.
+  apply andb_true_iff in H. destruct H as [Ha Hr]. rewrite (S a Ha), (IH Hr). reflexivity.
+Qed.
+
+Theorem output_independent_of_the_run {D C O : Type} (gen : D -> C -> list nat -> O) (reads : list ambient) d c e1 e2 :
+  forallb stable reads = true -> same_binary e1 e2 -> gen d c (observe reads e1) = gen d c (observe reads e2).
+Proof. intros H S. rewrite (stable_reads_same_observation reads e1 e2 H S). reflexivity. Qed.
+
+(** One unstable read is enough to lose this (a clock read): two runs of one binary that differ only in the clock. *)
+Theorem clock_read_refuted :
+  exists e1 e2, same_binary e1 e2 /\ observe [BuildInfo; Clock] e1 <> observe [BuildInfo; Clock] e2.
+Proof.
+  exists (fun _ => 0), (fun a => match a with Clock => 1 | _ => 0 end). split.
+  - intros a Ha. destruct a; try discriminate Ha; reflexivity.
+  - simpl. discriminate.
+Qed.
